@@ -728,6 +728,9 @@ fn run<T: Tgt>(out: &mut Out, target: T, case: &str, ops: &[Op]) -> (String, boo
                 // the documented panic: record data longer than 65535 octets
                 let ulen = match op { Op::R { items, .. } => items.iter().map(item_ulen).sum::<usize>(), _ => 0 };
                 let documented = ulen > 65535 && p.contains("long");
+                if documented {
+                    out.count("info_panic_long_rdata");
+                }
                 out.check(documented, "builder_panic", case, &format!("op {} ({}) panicked: {}", i, &op_str(op).chars().take(60).collect::<String>(), p));
                 dead = true;
                 break;
@@ -765,6 +768,7 @@ fn run<T: Tgt>(out: &mut Out, target: T, case: &str, ops: &[Op]) -> (String, boo
             }
             Res::Push(Ok(())) => {
                 words.push("ok");
+                out.count("info_push_ok");
                 any_ok = true;
                 for w in op_names(op) {
                     if !seen.insert(lower(w)) {
@@ -786,11 +790,13 @@ fn run<T: Tgt>(out: &mut Out, target: T, case: &str, ops: &[Op]) -> (String, boo
                 }
             }
             Res::Push(Err(e)) => {
-                words.push(match e {
+                let w = match e {
                     PushError::ShortBuf => "short",
                     PushError::LimitExceeded => "limit",
                     PushError::CountOverflow => "count",
-                });
+                };
+                words.push(w);
+                out.count(match w { "short" => "info_push_short", "limit" => "info_push_limit", _ => "info_push_count" });
                 any_fail = true;
                 if let Some(bf) = before.as_ref() {
                     let now = snap(b);
